@@ -376,15 +376,28 @@ fn run_operation_sequences<S: Shredder>(name: &'static str, report: &Report, st:
     let max = S::MAX_DATA_SIZE - overhead(true);
     let sizes: Vec<usize> = vec![1, 1000, max];
     // fixtures made by pristine instances
-    let fixtures: Vec<(Slice, [ValidatedShred; TOTAL_SHREDS])> = sizes
-        .iter()
-        .enumerate()
-        .map(|(k, len)| {
-            let slice = mk_slice(11, k, false, true, *len);
-            let shreds = S::default().shred(&slice, &sk).expect("fixture shreds");
-            (slice, shreds)
-        })
-        .collect();
+    let built = catch(std::panic::AssertUnwindSafe(|| {
+        sizes
+            .iter()
+            .enumerate()
+            .map(|(k, len)| {
+                let slice = mk_slice(11, k, false, true, *len);
+                let shreds = S::default().shred(&slice, &sk).map_err(|e| format!("{e:?}"))?;
+                Ok((slice, shreds))
+            })
+            .collect::<Result<Vec<(Slice, [ValidatedShred; TOTAL_SHREDS])>, String>>()
+    }));
+    let fixtures = match built {
+        Ok(Ok(f)) => f,
+        Ok(Err(e)) => {
+            report.violation(format!("C11:fitting-slice-refused:{name}:operation-sequence"), format!("a pristine instance refuses a slice of one of the sizes {sizes:?}: {e}"), json!({"shredder": name, "oracle": "operation-sequence"}));
+            return;
+        }
+        Err(p) => {
+            report.violation(format!("C11:shred-panics:{name}:operation-sequence"), format!("a pristine instance panics shredding a slice of one of the sizes {sizes:?}: {p:.160}"), json!({"shredder": name, "oracle": "operation-sequence"}));
+            return;
+        }
+    };
     let nops = 2 * sizes.len();
     let len = tier.pick(3usize, 4);
     let total = nops.pow(len as u32);
